@@ -75,6 +75,8 @@ mpf_eq (mpf_srcptr u, mpf_srcptr v, mp_bitcnt_t n_bits)
   if (cu != cv)
     return 0;
   n = BITS_TO_LIMBS (n_bits + cu);
+  if (n == 0)
+    return 1;			/* no bits to compare (n_bits == 0) */
 //compair bottom limb
   k = n * GMP_NUMB_BITS - n_bits - cu;
   uval = vval = 0;
